@@ -197,6 +197,11 @@ class MapMonitors:
                         return False
         if not self.check_mapping(F, RF, size0, dict(det, law="roundtrip-differential")):
             return False
+        for (a, b) in ((0, 2 * n - 1), (n // 2, n + n // 2), (0, n), (1, 2 * n)):
+            if 0 <= a <= b <= 2 * n:
+                if not self.check_mapping(F.slice(a, b), RF.slice(a, b), size0 + 2,
+                                          dict(det, law="roundtrip-slice", a=a, b=b)):
+                    return False
         B = Mapping([m.invert() for m in reversed(maps)])
         RB = refmap.RMapping([r.inverted() for r in reversed(rmaps)])
         for k in range(n):
@@ -294,9 +299,14 @@ class MapMonitors:
         if not self.check_mapping(tr.mapping, RM, psize, det):
             return
         # slices of the rebase mapping as the stub uses them
-        for f in range(0, len(rmaps) + 1, max(1, len(rmaps) // 3)):
+        L = len(rmaps)
+        for f in range(0, L + 1, max(1, L // 3)):
             if not self.check_mapping(tr.mapping.slice(f), RM.slice(f), psize + 2, dict(det, law="slice", f=f)):
                 return
+            for t in sorted({f, (f + L) // 2, max(f, L - 1)}):
+                if not self.check_mapping(tr.mapping.slice(f, t), RM.slice(f, t), psize + 2,
+                                          dict(det, law="slice", f=f, t=t)):
+                    return
         # token-neighbour law (never runs the mapping code it judges)
         if all(a for (_, _, a) in judged):
             self.token_neighbour(client, tr, rest, remote, judged, pre_doc, det, RM)
